@@ -437,6 +437,7 @@ type State struct {
 	epoch int
 	dead  bool
 	sorted []Fact // cache of factList()
+	frozen bool   // stored in an analysis (never mutated again)
 }
 
 // factList returns the facts in a deterministic (key) order; every loop
